@@ -226,12 +226,15 @@ class Impl:
         x, g, v = self.o[f].fixed_point(); self.o[xn] = x; self.o[vn] = v; return "ok"
     def op_fn_smul(self, n, c, a): self.o[n] = self.R(c) * self.o[a]; return "ok"
     def op_fn_div(self, n, a, c): self.o[n] = self.o[a] / self.R(c); return "ok"
-    def _spec(self, f):
-        """what the REAL example built: samples recorded on the function, constraints and metrics declared on the problem"""
-        sm = ";".join(pd(x) + "|" + pd(g) + "|" + ed(v) for (x, g, v) in self.o[f].list_of_points)
+    def _spec(self, f, f2=None, f3=None):
+        """what the REAL example built: samples recorded on the function(s), constraints and metrics declared on the problem"""
+        smp = lambda fn: ";".join(pd(x) + "|" + pd(g) + "|" + ed(v) for (x, g, v) in self.o[fn].list_of_points)
+        sm = smp(f)
         ini = ";".join(("eq" if c.equality_or_inequality == "equality" else "le") + "|" + ed(c.expression) for c in self.pep.list_of_constraints)
         me = ";".join(ed(m) for m in self.pep.list_of_performance_metrics)
-        return "samples=[%s] init=[%s] metrics=[%s]" % (sm, ini, me)
+        extra = "".join(" samples%d=[%s]" % (i, smp(fn)) for i, fn in ((2, f2), (3, f3)) if fn is not None and self.o[fn].list_of_points)
+        return "samples=[%s] init=[%s] metrics=[%s]%s" % (sm, ini, me, extra)
+    def op_spec_pg(self, f, f2, f3, *a): return self._spec(f, f2, f3)
     def op_spec_gdc(self, f, *a): return self._spec(f)
     def op_spec_subg(self, f, *a): return self._spec(f)
     def op_note(self, *a): return "ok"
@@ -920,6 +923,7 @@ def example_program(c):
     spec = []
     fr = lambda v: showrat(Fr(v)) if isinstance(v, int) else showrat(Fr(float(v)))
     if c["func"] == "wc_gradient_descent_contraction": spec = ["spec.gdc f0 %s %d" % (fr(c["args"]["gamma"]), c["args"]["n"])]
+    if c["func"] == "wc_proximal_gradient": spec = ["spec.pg f0 f1 f2 %s %d" % (fr(c["args"]["gamma"]), c["args"]["n"])]
     if c["func"] == "wc_subgradient_method": spec = ["spec.subg f0 %s %d" % (fr(c["args"]["gamma"]), c["args"]["n"])]
     return r["lines"] + spec + [head, "solve.collect", "dump.sent", "expect.sent " + hashlib.sha1(r["sent"].encode()).hexdigest()[:20], "dump.counters"]
 
@@ -934,7 +938,12 @@ def gen_methods(seed):
     """the examples whose whole user-level model is specified in Lean (Model/Methods.lean), at parameter values drawn over
     the documented ranges (no solve is involved, so any number of steps is cheap)"""
     rnd = random.Random(seed * 104729 + 11)
-    if seed % 2 == 0:
+    if seed % 3 == 2:
+        L = rnd.choice([1, 2, 0.5, 1.7, 4]); mu = rnd.choice([0.1, 0.05, 0.25, 0.5]) * L
+        gamma = rnd.choice([1 / L, 0.5 / L, 1.5 / L, 2 / (L + mu), 0.3, 1, 0.25])
+        c = dict(module="PEPit.examples.composite_convex_minimization.proximal_gradient", func="wc_proximal_gradient",
+                 args=dict(L=L, mu=mu, gamma=gamma, n=rnd.randint(1, 6)))
+    elif seed % 3 == 0:
         L = rnd.choice([1, 2, 0.5, 1.7, 4]); mu = rnd.choice([0.1, 0.05, 0.25, 0.5]) * L
         gamma = rnd.choice([1 / L, 0.5 / L, 1.5 / L, 2 / (L + mu), 0.3, 1, 0.25])
         c = dict(module="PEPit.examples.tutorials.gradient_descent_contraction", func="wc_gradient_descent_contraction",
